@@ -523,8 +523,19 @@ void run_direct_step (int i, std::vector<std::string> &a) {
 }
 
 static void run_case (std::vector<std::vector<std::string> > &steps) {
-  size_t i = 0;
+  // As in the running driver, where backend()'s error context is below every evaluation: the contexts of the individual
+  // steps are nested ones, never the outermost.
+  static error_context_t outer;
+  volatile size_t vi = 0;
+  int have_outer = save_context (&outer);
+  if (have_outer && setjmp (outer.context)) {
+    restore_context (&outer);
+    rec_begin ((int) vi, "outer_context_reached"); rec_end ();
+    vi = vi + 1;
+  }
+  size_t i = vi;
   while (i < steps.size ()) {
+    vi = i;
     if (steps[i][0] == "backend") {
       // all following steps up to "endbackend" are executed from inside backend()
       run_backend_steps (steps, i);
@@ -533,6 +544,7 @@ static void run_case (std::vector<std::vector<std::string> > &steps) {
       i++;
     }
   }
+  if (have_outer) pop_context (&outer);
   rec_begin ((int) steps.size (), "done"); rec_kv_int ("count", hook_count); rec_kv_int ("pc_violation", pc_violation); rec_end ();
 }
 
